@@ -40,54 +40,6 @@ RULE += (' ' +
          'negotiation; two logged-in connections at once; repeated sessions '
          'on one object; write errors; kick reasons of every JSON shape '
          'incl. nesting 3000-60000 deep, unbalanced and 70 kB long; unknown '
-         'frames of exactly threshold-1/threshold/threshold+1 bytes. ')
-RULE += (' ' +
-         'Added in later rounds: histories entered through version '
-         'negotiation; two logged-in connections at once; repeated sessions '
-         'on one object; write errors; kick reasons of every JSON shape '
-         'incl. nesting 3000-60000 deep, unbalanced and 70 kB long; unknown '
-         'frames of exactly threshold-1/threshold/threshold+1 bytes. Round '
-         '11: component flood - one keep-alive, then 70 000 (thorough 300 '
-         '000) packets queued at once from a listener or the user thread; '
-         'the reply and every packet arrive once, in order. ')
-RULE += (' ' +
-         'Added in later rounds: histories entered through version '
-         'negotiation; two logged-in connections at once; repeated sessions '
-         'on one object; write errors; kick reasons of every JSON shape '
-         'incl. nesting 3000-60000 deep, unbalanced and 70 kB long; unknown '
-         'frames of exactly threshold-1/threshold/threshold+1 bytes. Round '
-         '11: component flood - one keep-alive, then 70 000 (thorough 300 '
-         '000) packets queued at once from a listener or the user thread; '
-         'the reply and every packet arrive once, in order. Round 12: peers '
-         "that reset (the client's own shutdown() then fails); descriptors "
-         'of ended sessions closed. ')
-RULE += (' ' +
-         'Added in later rounds: histories entered through version '
-         'negotiation; two logged-in connections at once; repeated sessions '
-         'on one object; write errors; kick reasons of every JSON shape '
-         'incl. nesting 3000-60000 deep, unbalanced and 70 kB long; unknown '
-         'frames of exactly threshold-1/threshold/threshold+1 bytes. Round '
-         '11: component flood - one keep-alive, then 70 000 (thorough 300 '
-         '000) packets queued at once from a listener or the user thread; '
-         'the reply and every packet arrive once, in order. Round 12: peers '
-         "that reset (the client's own shutdown() then fails); descriptors "
-         'of ended sessions closed. ')
-RULE += (' ' +
-         'Added in later rounds: histories entered through version '
-         'negotiation; two logged-in connections at once; repeated sessions '
-         'on one object; write errors; kick reasons of every JSON shape '
-         'incl. nesting 3000-60000 deep, unbalanced and 70 kB long; unknown '
-         'frames of exactly threshold-1/threshold/threshold+1 bytes. Round '
-         '11: component flood - one keep-alive, then 70 000 (thorough 300 '
-         '000) packets queued at once from a listener or the user thread; '
-         'the reply and every packet arrive once, in order. Round 12: peers '
-         "that reset (the client's own shutdown() then fails); descriptors "
-         'of ended sessions closed. ')
-RULE += (' ' +
-         'Added in later rounds: histories entered through version '
-         'negotiation; two logged-in connections at once; repeated sessions '
-         'on one object; write errors; kick reasons of every JSON shape '
-         'incl. nesting 3000-60000 deep, unbalanced and 70 kB long; unknown '
          'frames of exactly threshold-1/threshold/threshold+1 bytes. Round '
          '11: component flood - one keep-alive, then 70 000 (thorough 300 '
          '000) packets queued at once from a listener or the user thread; '
@@ -95,7 +47,9 @@ RULE += (' ' +
          "that reset (the client's own shutdown() then fails); descriptors "
          'of ended sessions closed. Round 15: histories under clocks that '
          'leap an hour per reading (wall clock and timeit.default_timer) or '
-         'step back. ')
+         'step back. Round 16: sessions started by an exception handler of '
+         'the previous, failed session - the exit callback runs once per '
+         'session that ended without an error (delegated to C14). ')
 LEVEL_TEXT = ('Model-based testing of the play-state reactions over '
               'generated server histories x versions x compression x '
               'delivery patterns on an in-memory network.')
